@@ -176,3 +176,14 @@ func (db *DB) VerifGCState() (running bool, dirty []boson.Address) {
 
 // VerifPO is the bin of an address relative to the store's base key.
 func (db *DB) VerifPO(addr boson.Address) uint8 { return db.po(addr) }
+
+// VerifBatchMuHeld reports whether some writer currently holds batchMu
+// (used by the concurrency cases to release racing calls while a large
+// batched Put keeps the write lock busy).
+func (db *DB) VerifBatchMuHeld() bool {
+	if db.batchMu.TryLock() {
+		db.batchMu.Unlock()
+		return false
+	}
+	return true
+}
